@@ -420,6 +420,8 @@ class Exec:
     def safety(self, st, exc, node_desc, goal):
         """obligation that an exception is not raised, or a branch when inside a matching try"""
         if exc in self.c.allow_raise:
+            # the contract declares that this exception may escape: no obligation; execution continues only where it is not raised
+            st.assume(goal)
             return
         self.oblige(st, f'safety:{exc}@{node_desc}', goal, kind='safety')
         st.assume(goal)
